@@ -8,6 +8,7 @@ SUBST = [
     (r'Rc<RefCell<Option<Error>>>', 'ErrSlot'),
 ]
 BI = 'src/buffered_input.rs'
+SAPHYR = 'dep:saphyr-parser-bw-0.0.608/src/'
 ITEMS = [
     dict(src=BI, path='struct ChunkedChars',
          rewrites=[(r'ChunkedChars<R: Read>', 'ChunkedChars', 1, 'R9'), (r'reader: R,', 'reader: ByteSrc,', 1, 'R9')]),
@@ -111,4 +112,15 @@ ITEMS = [
                   ('C10:any_other_failure_is_passed_on', 'res is Err && old(adapter).last_err is None ==> r == res'),
                   ('success_is_passed_on', 'res is Ok ==> r is Ok')],
          canaries=['C10:a_write_failure_of_the_output_is_what_serialization_returns']),
+    # ---- C01 (termination) reaches into the dependency here: the default method of saphyr-parser's `trait Input` that the
+    # directive scanner uses, extracted from the dependency source and run over the padded character source that
+    # BufferedInput<ChunkedChars<..>> is.  Its loop has no measure: at end of input `look_ch` yields '\0' for ever and
+    # `is_yaml_non_space('\0')` holds (known finding F28: from_reader("%") never returns).
+    dict(src=SAPHYR + 'input.rs', path='trait Input/fn fetch_while_is_yaml_non_space', id='saphyr::Input::fetch_while_is_yaml_non_space', props=['C01'],
+         pre_rewrites=[(r'fn fetch_while_is_yaml_non_space\(&mut self, out: &mut String\) -> usize', 'fn fetch_while_is_yaml_non_space(this: &mut PaddedChars, out: &mut String) -> usize', 1, 'R9'),
+                       (r'\bself\b', 'this', None, 'R9'), (r'crate::char_traits::is_yaml_non_space', 'is_yaml_non_space', 1, 'R9'),
+                       (r'c\.len_utf8\(\)', 'char_len_utf8(c)', 1, 'R8'), (r'out\.push\(c\);', 'string_push_char(out, c);', 1, 'R8')],
+         impl_header='',
+         requires=[('a_text_shorter_than_the_address_space', 'old(this).rest().len() * 4 < usize::MAX')],
+         loops={1: dict(decreases='this.rest().len()')}),
 ]
